@@ -29,15 +29,30 @@ for d in sorted(glob.glob(os.path.join(VERIF, 'seeded', '*'))):
 props_all = sorted({e['prop'] for e in corpus})
 for pr in props_all:
     corpus.append({'id': 'harmless-shift-' + pr, 'prop': pr, 'harmless': 'shift'})
+import concurrent.futures, threading, atexit
+# work on a snapshot of /repo and of the check's inputs taken now, so that a long run is not disturbed by (and does
+# not mix states of) edits made while it runs
+SNAP = tempfile.mkdtemp(prefix='gocv-selftest-snap-')
+atexit.register(lambda: shutil.rmtree(SNAP, ignore_errors=True))
+shutil.copytree('/repo', os.path.join(SNAP, 'repo'), ignore=shutil.ignore_patterns('.git'))
+for sub in ('stubs', 'baseline', 'replay'):
+    shutil.copytree(os.path.join(VERIF, sub), os.path.join(SNAP, 'verif', sub))
+shutil.copy(os.path.join(VERIF, 'known_findings.json'), os.path.join(SNAP, 'verif'))
+shutil.copy(os.path.join(VERIF, 'bin', 'gocv'), os.path.join(SNAP, 'gocv'))
+lock = threading.Lock()
 bad = 0
 ran = 0
-for e in corpus:
-    if want and e['prop'] not in want and e['id'] not in want:
-        continue
+
+def say(msg):
+    with lock:
+        print(msg, flush=True)
+
+def run_one(e):
+    """returns (ran, bad)"""
     tmp = tempfile.mkdtemp(prefix='gocv-selftest-')
     try:
         scratch = os.path.join(tmp, 'repo')
-        shutil.copytree('/repo', scratch, ignore=shutil.ignore_patterns('.git'))
+        shutil.copytree(os.path.join(SNAP, 'repo'), scratch)
         if e.get('harmless') == 'shift':
             import glob as _g
             for fn in _g.glob(os.path.join(scratch, '*.go')) + _g.glob(os.path.join(scratch, 'cmd', 'desync', '*.go')):
@@ -53,49 +68,48 @@ for e in corpus:
         elif 'patch' in e:
             a = subprocess.run(['git', 'apply', e['patch']], cwd=scratch, capture_output=True, text=True)
             if a.returncode != 0:
-                print(f"SELFTEST-STALE {e['id']}: patch does not apply: {a.stderr[:200]}")
-                bad += 1
-                continue
+                say(f"SELFTEST-STALE {e['id']}: patch does not apply: {a.stderr[:200]}")
+                return 0, 1
         else:
             path = os.path.join(scratch, e['file'])
             src = open(path).read()
             if src.count(e['old']) != 1:
-                print(f"SELFTEST-STALE {e['id']}: pattern occurs {src.count(e['old'])} times in {e['file']}")
-                bad += 1
-                continue
+                say(f"SELFTEST-STALE {e['id']}: pattern occurs {src.count(e['old'])} times in {e['file']}")
+                return 0, 1
             open(path, 'w').write(src.replace(e['old'], e['new']))
         b = subprocess.run(['go', 'build', './...'], cwd=scratch, env=env, capture_output=True, text=True)
         if b.returncode != 0:
-            print(f"SELFTEST-NOBUILD {e['id']}: {b.stderr[:300]}")
-            bad += 1
-            continue
+            say(f"SELFTEST-NOBUILD {e['id']}: {b.stderr[:300]}")
+            return 0, 1
         replays = os.path.join(tmp, 'verif')
         os.makedirs(os.path.join(replays, 'baseline'), exist_ok=True)
-        # run against the scratch copy, with the real ledger / stubs / known findings, but write outputs to tmp
+        # run against the scratch copy, with the ledger / stubs / known findings of the snapshot; outputs go to tmp
         for sub in ('stubs', 'baseline', 'replay'):
-            if os.path.isdir(os.path.join(VERIF, sub)):
-                shutil.copytree(os.path.join(VERIF, sub), os.path.join(replays, sub), dirs_exist_ok=True)
-        if os.path.exists(os.path.join(VERIF, 'known_findings.json')):
-            shutil.copy(os.path.join(VERIF, 'known_findings.json'), replays)
-        r = subprocess.run([os.path.join(VERIF, 'bin', 'gocv'), 'check', e['prop'], '--repo', scratch, '--verif', replays],
+            shutil.copytree(os.path.join(SNAP, 'verif', sub), os.path.join(replays, sub), dirs_exist_ok=True)
+        shutil.copy(os.path.join(SNAP, 'verif', 'known_findings.json'), replays)
+        r = subprocess.run([os.path.join(SNAP, 'gocv'), 'check', e['prop'], '--repo', scratch, '--verif', replays],
                            env=env, capture_output=True, text=True)
-        ran += 1
         viol = re.findall(r'VIOLATION property=\S+ replay=\S*/([^/\s]+)\.json', r.stdout)
         if e.get('harmless'):
             if r.returncode == 0 and not viol:
-                print(f"selftest ok   {e['id']:40s} no alarm on a harmless edit")
-            else:
-                print(f"SELFTEST-FALSE-ALARM {e['id']}: rc={r.returncode} {viol[:5]}")
-                bad += 1
-            continue
+                say(f"selftest ok   {e['id']:40s} no alarm on a harmless edit")
+                return 1, 0
+            say(f"SELFTEST-FALSE-ALARM {e['id']}: rc={r.returncode} {viol[:5]}")
+            return 1, 1
         hit = [v for v in viol if re.search(e['expect'], v)]
         if r.returncode == 1 and hit:
-            print(f"selftest ok   {e['id']:40s} fails {hit[0]}")
-        else:
-            print(f"SELFTEST-MISS {e['id']}: expected a violation matching /{e['expect']}/, got rc={r.returncode} {viol}")
-            print(r.stderr[-400:])
-            bad += 1
+            say(f"selftest ok   {e['id']:40s} fails {hit[0]}")
+            return 1, 0
+        say(f"SELFTEST-MISS {e['id']}: expected a violation matching /{e['expect']}/, got rc={r.returncode} {viol}\n" + r.stderr[-400:])
+        return 1, 1
     finally:
         shutil.rmtree(tmp, ignore_errors=True)
+
+todo = [e for e in corpus if not want or e['prop'] in want or e['id'] in want]
+jobs = int(os.environ.get('SELFTEST_JOBS', '4'))
+with concurrent.futures.ThreadPoolExecutor(max_workers=jobs) as ex:
+    for a, b in ex.map(run_one, todo):
+        ran += a
+        bad += b
 print(f"selftest: {ran} mutants run, {bad} problems")
 sys.exit(1 if bad else 0)
